@@ -65,8 +65,12 @@ fn log_phase(ph: usize, st: St, act: u8) -> usize {
         r.st = st;
         r.act = act;
         r.ctx = rt::ctx();
-        if let Some(s) = G_STORE.as_ref() {
-            r.seen = s.get_state();
+        // (the summaries' own probe must not stand in for a lock the real phases never take:
+        // skipped while S-read-hold's reader holds the state lock)
+        if rt::HELD_STATE.is_none() {
+            if let Some(s) = G_STORE.as_ref() {
+                r.seen = s.get_state();
+            }
         }
     }
     j
@@ -711,6 +715,87 @@ glue_plain! { #[kani::unwind(7)] fn g_full_latest_k2_stop() { g_full_at_stop(2, 
 glue_plain! { #[kani::unwind(7)] fn g_full_latest_k1_drop() { g_full_at_stop(1, 2, END_DROP); } }
 glue_plain! { #[kani::unwind(7)] fn g_full_oldest_k2_stop() { g_full_at_stop(2, 1, END_STOP); } }
 glue_plain! { #[kani::unwind(7)] fn g_full_oldest_k3_drop() { g_full_at_stop(3, 1, END_DROP); } }
+
+// -----------------------------------------------------------------------------------------
+// S-read-hold (C01 / C08): a reader thread is SUSPENDED INSIDE get_state() - it has taken the
+// state lock and is cloning - when the loop has just taken queue item `occ`.  A context that
+// waits for the lock lets the reader finish (rt::mutex_lock); otherwise the reader finishes
+// when the loop comes back for the next item.  Whatever the loop does meanwhile, the state
+// after stop() is the fold of all actions and the reader saw a completely reduced state.
+// -----------------------------------------------------------------------------------------
+fn hold_yield(kind: u8, obj: usize) {
+    unsafe {
+        if kind == hk::RECV && obj == 0 && rt::HELD_STATE.is_some() {
+            rt::holder_release();
+            rt::HELD_WAITED -= 1; // nobody waited: the reader simply finished
+        }
+    }
+    if rt::at_placement(kind, obj) {
+        unsafe {
+            if let Some(s) = G_STORE.as_ref() {
+                if let Some(g) = rt::ReaderProbe::reader_enters_get_state(&**s) {
+                    core::ptr::write(&mut rt::HELD_STATE, Some(g));
+                    READ_DONE = true;
+                }
+            }
+        }
+    }
+}
+pub fn hold_yield_pub(kind: u8, obj: usize) {
+    hold_yield(kind, obj);
+    rt::on_join(kind, obj);
+}
+fn s_read_hold(k: usize, occ: u8) {
+    g_reset();
+    crossbeam::hooks::set_native(Some(hold_yield_pub), None);
+    let init: St = kani::any();
+    let store = mk_glue_store(4, BackpressurePolicy::BlockOnFull, init);
+    unsafe {
+        core::ptr::write(&mut G_STORE, Some(store.clone()));
+        core::ptr::write(&mut rt::HELD_STATE, None);
+        rt::HELD_WAITED = 0;
+        READ_DONE = false;
+    }
+    symbolic_summaries(k);
+    let mut j = 0;
+    while j < k {
+        core::mem::forget(StoreImpl::dispatch(&store, kani::any()));
+        j += 1;
+    }
+    rt::arm(hk::TAKEN, 0, occ);
+    store.stop();
+    rt::run_loop(0);
+    unsafe {
+        rt::PLACE_ARMED = false;
+        rt::holder_release();
+    }
+    let expect = if occ == 0 { init } else { unsafe { SUM_OUT[occ as usize - 1] } };
+    chk!(8, unsafe { READ_DONE }, "VERIF: the reader ran");
+    chk!(8, unsafe { rt::HELD_READ } == expect, "a reader that holds the state lock while the loop works sees the state left by the last completely reduced action");
+    let fin = store.get_state();
+    chk!(1, fin == unsafe { SUM_OUT[k - 1] }, "once stop() has returned get_state() is the state after the last reduced action, also when a reader held the state lock while that action was published");
+    chk!(8, fin == unsafe { SUM_OUT[k - 1] }, "reads never go back: the last published state is the newest");
+    kani::cover!(unsafe { rt::HELD_WAITED } > 0, "COVER-OPT the loop waited for the reader to finish");
+    unsafe {
+        core::ptr::write(&mut G_STORE, None);
+    }
+    core::mem::forget(store);
+    finish!(1, 8);
+}
+macro_rules! hold_harness {
+    ($($name:ident = ($k:expr, $occ:expr);)+) => { $(
+        glue_harness! {
+            #[kani::stub(crossbeam::hooks::yield_point, crate::verif_kani::g_glue::hold_yield_pub)]
+            #[kani::unwind(7)]
+            fn $name() { s_read_hold($k, $occ); }
+        }
+    )+ };
+}
+hold_harness! {
+    s_read_hold_k1_last = (1, 0);
+    s_read_hold_k2_last = (2, 1);
+    s_read_hold_k2_first = (2, 0);
+}
 
 // -----------------------------------------------------------------------------------------
 // S-read (C08): a reader thread's get_state() placed at channel-level scheduling points of
